@@ -11,6 +11,10 @@ A case is a route list plus a handful of requests:
          | ["e", name, text]      info['match'].get(name) == text  (a predicate that reads the match dictionary)
          | ["m", "GET"|"POST"]    the real request_method predicate
          | ["h", header-name]     the real header predicate (header present)
+         | ["b", keyword, value]  a built-in predicate keyword of add_route passed with this very value (Router modes):
+                                  xhr / request_method / path_info / request_param / header / accept / is_authenticated /
+                                  effective_principals with their falsy but meaningful values too (False, "", []); value
+                                  null = the keyword passed as None (no predicate)
          | ["q", [bool…]]         opaque predicate whose outcome differs from request to request (indexed by the position
                                   of the request in "reqs"): the same mapper / application answers all of them
   INTENT = what the author of the pattern meant, token by token (independent of _compile_route's parsing):
@@ -354,7 +358,53 @@ def pred_value(p, env, req):
         return req.get('accept') is None or req['accept'] == p[1]
     if p[0] == 'q':
         return p[1][req.get('tag', 0) % len(p[1])]
+    if p[0] == 'b':
+        return True if p[2] is None else builtin_truth(p[1], p[2], req)
     raise ValueError(p)
+
+
+def _seq(v):
+    return (v,) if isinstance(v, str) else tuple(v)
+
+
+def builtin_truth(kw, value, req):
+    """what the documented route predicate `kw=value` says about the request (written from the documentation of
+    add_route, not from pyramid.predicates); a value that is not None always makes a predicate"""
+    if kw == 'xhr':
+        return bool(value) == bool(req.get('xhr'))
+    if kw == 'request_method':
+        return any(method_holds(v, req['method']) for v in _seq(value))
+    if kw == 'path_info':                      # a regex matched at the start; the generator uses plain literal values
+        p = decode_wsgi_raw(req['path'])
+        return p is not None and p.startswith(value)
+    if kw == 'request_param':
+        params = dict(x.split('=', 1) if '=' in x else (x, '') for x in (req.get('qs') or '').split('&') if x)
+        for item in _seq(value):
+            k, _, v = item.partition('=')
+            if k.strip() not in params or ('=' in item and params[k.strip()] != v.strip()):
+                return False
+        return True
+    if kw == 'header':
+        hdrs = {h: '1' for h in req['headers']}
+        for item in _seq(value):
+            name, sep, rx = item.partition(':')
+            if name not in hdrs or (sep and re.match(rx, hdrs[name]) is None):
+                return False
+        return True
+    if kw == 'accept':
+        return any(req.get('accept') is None or req['accept'] == v for v in _seq(value))
+    if kw == 'is_authenticated':               # no security policy is configured: nobody is authenticated
+        return value == False                  # noqa: E712  (0 == False as in the code)
+    if kw == 'effective_principals':           # no policy: the principals are [Everyone]
+        return len(_seq(value)) == 0
+    raise ValueError(kw)
+
+
+def decode_wsgi_raw(p):
+    try:
+        return (p or '').encode('latin-1').decode('utf-8')
+    except UnicodeDecodeError:
+        return None
 
 
 def method_holds(val, method):
@@ -465,6 +515,10 @@ def blank_environ(req):
     env['vf.tag'] = req.get('tag', 0)
     if req.get('accept') is not None:
         env['HTTP_ACCEPT'] = req['accept']
+    if req.get('xhr'):
+        env['HTTP_X_REQUESTED_WITH'] = 'XMLHttpRequest'
+    if req.get('qs'):
+        env['QUERY_STRING'] = req['qs']
     for h in req['headers']:
         env['HTTP_' + h.upper().replace('-', '_')] = '1'
     return env
@@ -622,6 +676,8 @@ def impl_router(case):
                 kw['request_method'] = p[1]
             elif p[0] == 'a':
                 kw['accept'] = p[1]
+            elif p[0] == 'b':
+                kw[p[1]] = tuple(p[2]) if isinstance(p[2], list) else p[2]
             else:
                 kw['header'] = p[1]
         # arguments that must not influence dispatch
@@ -778,7 +834,9 @@ def model_lines(case):
     wlib = [rx_wire(x) for x in lib]
     lines = []
     for req in case['reqs']:
-        routes = [{'name': codes(r['name']), 'pattern': codes(r['pattern']), 'preds': [wire_pred(p, req) for p in r['preds']],
+        routes = [{'name': codes(r['name']), 'pattern': codes(r['pattern']),
+                   'preds': [wire_pred(p, req) for p in r['preds'] if p[0] != 'b'],
+                   'builtins': [[p[1], None if p[2] is None else bool(builtin_truth(p[1], p[2], req))] for p in r['preds'] if p[0] == 'b'],
                    'static': bool(r['static'])} for r in case['routes']]
         if case['mode'] != 'mapper':
             for w, r in zip(routes, case['routes']):
@@ -1126,17 +1184,32 @@ def gen_reqs(rng, routes, n, intents=None):
             w = None
         reqs.append({'path': w, 'method': rng.choice(['GET', 'GET', 'POST', 'HEAD']),
                      'headers': ['X-A'] if rng.random() < 0.3 else [],
-                     'accept': rng.choice([None, None, 'text/html', 'application/json'])})
+                     'accept': rng.choice([None, None, 'text/html', 'application/json']),
+                     'xhr': rng.random() < 0.4, 'qs': rng.choice(['', '', 'a=1', 'a=2&b=', 'b=x'])})
     # the same path again, later, with other predicate outcomes (a long-lived mapper must not remember)
     for _ in range(rng.choice([0, 1, 2, 3])):
         q = dict(rng.choice(reqs))
         q['method'] = rng.choice(['GET', 'POST', 'HEAD'])
         q['accept'] = rng.choice([None, 'text/html', 'application/json'])
+        q['xhr'] = rng.random() < 0.5
+        q['qs'] = rng.choice(['', 'a=1', 'a=2&b=', 'b=x'])
         q['headers'] = ['X-A'] if rng.random() < 0.5 else []
         reqs.append(q)
     for i, q in enumerate(reqs):
         q['tag'] = i
     return reqs
+
+
+BUILTIN_VALUES = {
+    'xhr': [None, False, True, 0, 1, ''],
+    'request_method': [None, [], '', 'GET', 'POST', ['GET', 'POST'], 'HEAD'],
+    'path_info': [None, '', '/a', '/zz'],
+    'request_param': [None, '', [], 'a', 'a=1', ['a', 'b'], 'b='],
+    'header': [None, '', [], 'X-A', 'X-A:1', 'X-A:2', ['X-A', 'X-B']],
+    'accept': [None, [], 'text/html', ['text/html', 'application/json']],
+    'is_authenticated': [None, False, True, 0],
+    'effective_principals': [None, [], 'a', ['a']],
+}
 
 
 def gen_preds(rng, intent, router):
@@ -1158,7 +1231,14 @@ def gen_preds(rng, intent, router):
                 preds.append(['a', rng.choice(['text/html', 'application/json'])])
             elif not any(p[0] == 'h' for p in preds):
                 preds.append(['h', 'X-A'])
-    return preds[:3]
+    preds = preds[:3]
+    if router and rng.random() < 0.35:
+        # a built-in keyword with a value from its whole range, the falsy ones included
+        taken = {'m': 'request_method', 'h': 'header', 'a': 'accept'}
+        used = {taken[p[0]] for p in preds if p[0] in taken}
+        kw = rng.choice([k for k in BUILTIN_VALUES if k not in used])
+        preds.append(['b', kw, rng.choice(BUILTIN_VALUES[kw])])
+    return preds
 
 
 def variant(rng, intent):
@@ -1268,6 +1348,10 @@ def gen_case(rng, mode=None, malformed=False):
             if ex:
                 r['extras'] = ex
     case['reqs'] = gen_reqs(rng, routes, rng.choice([4, 6, 8]), [effective_intent(case, r) for r in routes])
+    if any(p[0] == 'b' and p[1] == 'path_info' and p[2] is not None for r in routes for p in r['preds']):
+        for q in case['reqs']:
+            if q['path'] is None:                # the path_info predicate reads PATH_INFO itself
+                q['path'] = ''
     feasible(case)
     return case
 
@@ -1496,6 +1580,33 @@ def exhaustive_cases(max_routes, max_segs):
     return cases
 
 
+def predicate_cube_cases():
+    """small scope for the add_route predicate keywords: two routes with the same pattern, the first carrying ONE built-in
+    keyword with a value from the whole cube (falsy and truthy), the second none; requests on every side of every such
+    predicate (xhr x method x header x accept x query string), through Router.__call__"""
+    reqs = []
+    tag = 0
+    for xhr in (False, True):
+        for method in ('GET', 'POST', 'HEAD'):
+            for headers in ([], ['X-A']):
+                for accept in (None, 'text/html', 'application/json'):
+                    for qs in ('', 'a=1', 'a=2&b='):
+                        reqs.append({'path': '/data/7', 'method': method, 'headers': headers, 'accept': accept, 'xhr': xhr,
+                                     'qs': qs, 'tag': tag})
+                        tag += 1
+    reqs += [dict(reqs[0], path='/a/data', tag=tag), dict(reqs[0], path='/other', tag=tag + 1)]
+    it = [['lit', '/data/'], ['ph', 'id', None, 'brace']]
+    cases = []
+    for kw, values in BUILTIN_VALUES.items():
+        for v in values:
+            for mode in (('router', 'include') if v in (False, '', [], 0) else ('router',)):
+                cases.append({'mode': mode, 'routes': [
+                    {'name': 'plain', 'pattern': '/data/{id}', 'preds': [['b', kw, v]], 'static': False, 'intent': it, 'depth': 1},
+                    {'name': 'other', 'pattern': '/data/{id}', 'preds': [], 'static': False, 'intent': it, 'depth': 0}],
+                    'reqs': reqs})
+    return cases
+
+
 def run(ctx):
     rng = ctx.rng
     notes = []
@@ -1536,6 +1647,13 @@ def run(ctx):
                                         'placeholders, *rest, two placeholders in one segment, old-style) x each route with/without a '
                                         'failing predicate x all paths of <= %d segments over {a,b,a.b,aXb,é}, each also with a trailing '
                                         '"/" and a trailing LF' % (2 if ctx.tier == 'quick' else 3)}
+    pc = predicate_cube_cases()
+    m, v, ag, ev = run_cases(ctx, pc, exd, set(), set())
+    mism += m; viol += v; agree += ag; evals += ev
+    dist['predicate_cube'] = {'applications': len(pc), 'evaluations': ev,
+                              'what': 'two same-pattern routes, the first with one built-in add_route predicate keyword from the value '
+                                      'cube %s, x 110 requests (xhr x method x header x accept x query string, two other paths)'
+                                      % json.dumps(BUILTIN_VALUES)}
     # the witness of the repaired finding F-C01b, kept as a regression case (must pass now)
     _, _, wv, _ = check_case(WITNESS_REST_NL)
     notes.append('regression F-C01b, repaired by fc43a19 (/a/*rest vs /a/b\\nc): %s' % (['%s' % (x['impl'],) for x in wv] or 'matches, no violation'))
